@@ -33,7 +33,7 @@ var c16Targets = []struct {
 	off      int
 }{{"932100", "932100", 0}, {"932110-chain1", "932110", 1}, {"932200", "932200", 0}}
 
-var assemblyFaults = []string{"missing-include", "missing-exclude-file", "unparsable-entry", "unknown-processor", "bad-cmdline-type", "missing-cmdline-type", "extra-end-marker", "missing-end-marker", "unknown-stored-name", "stored-name-of-another-file", "unsupported-flag", "odd-replacement-list", "flags-in-include"}
+var assemblyFaults = []string{"include-is-a-directory", "missing-include", "missing-exclude-file", "unparsable-entry", "unknown-processor", "bad-cmdline-type", "missing-cmdline-type", "extra-end-marker", "missing-end-marker", "unknown-stored-name", "stored-name-of-another-file", "unsupported-flag", "odd-replacement-list", "flags-in-include"}
 var rulesFaults = []string{"rule-id-absent", "chain-offset-beyond-chain", "chain-offset-past-end-of-chain", "no-rules-file", "two-rules-files", "target-without-rx"}
 var formatFaults = []string{"extra-end-marker", "unsupported-flag"}
 
@@ -126,6 +126,9 @@ func c16FaultLinesPlain(fault string) []string {
 		return []string{"##!> include does-not-exist"}
 	case "missing-exclude-file":
 		return []string{"##!> include-except shared does-not-exist"}
+	case "include-is-a-directory":
+		// nothing but a directory answers to the name of the include file
+		return []string{"##!> include dirlist"}
 	case "unparsable-entry":
 		return []string{"ok1", "a{2,1}(unclosed", "ok2"}
 	case "unknown-processor":
@@ -169,6 +172,8 @@ func (c C16Case) build(withFault bool) cli.Tree {
 	}
 	if withFault {
 		switch c.Fault {
+		case "include-is-a-directory":
+			t["regex-assembly/include/dirlist.ra/"] = ""
 		case "test-file-absent":
 			delete(t, "tests/regression/tests/R/932100.yaml")
 			t["tests/regression/tests/R/932101.yaml"] = "---\ntests:\n  - test_id: 5\n"
